@@ -273,6 +273,8 @@ pub fn boundary_cases() -> Vec<String> {
     for (afi, safi, dir, nl) in &seeds {
         for addpath in [false, true] {
             let desc = CodecDesc { fams: vec![(1, 1, false), (*afi, *safi, addpath)], ..d0.clone() };
+            // phase 2 families are in the model: diffed like any `bgp` case
+            let xtag = if modelled_family(*afi, *safi) { "bgp" } else { "xbgp" };
             let nhl: usize = match (*afi, *safi) {
                 (_, 133) | (_, 134) => 0,
                 (1, 128) => 12,
@@ -289,12 +291,12 @@ pub fn boundary_cases() -> Vec<String> {
                 let f: Vec<Vec<u8>> = vec![afi.to_be_bytes().to_vec(), vec![*safi], vec![nhl as u8], nh_bytes(nhl), vec![0]];
                 let head = cat(&f);
                 for k in cuts(&f) {
-                    out.push(case("xbgp", &desc, &upd_with(0x80, 14, &head[..k], None, false)));
+                    out.push(case(xtag, &desc, &upd_with(0x80, 14, &head[..k], None, false)));
                 }
                 for k in 0..=nlri.len() {
                     let mut v = head.clone();
                     v.extend_from_slice(&nlri[..k]);
-                    out.push(case("xbgp", &desc, &upd_with(0x80, 14, &v, None, false)));
+                    out.push(case(xtag, &desc, &upd_with(0x80, 14, &v, None, false)));
                 }
             }
             if dir != "reach" {
@@ -303,7 +305,7 @@ pub fn boundary_cases() -> Vec<String> {
                 for k in 0..=nlri.len() {
                     let mut v = head.clone();
                     v.extend_from_slice(&nlri[..k]);
-                    out.push(case("xbgp", &desc, &upd_with(0x80, 15, &v, None, false)));
+                    out.push(case(xtag, &desc, &upd_with(0x80, 15, &v, None, false)));
                 }
             }
         }
